@@ -146,7 +146,9 @@ CHECKS = {
                 "results carry no failing diagnostic. The implementation is compared with both the reader model (whole outcome incl. diagnostics) and the "
                 "specification on grammar-directed texts with arbitrary justification, plus single-field corruptions. Proved for every input: a value "
                 "standing anywhere inside its columns is read as the value (justification independence); the integers written in a field are the integers "
-                "read; a coordinate line assembled from 21 fields of the column widths is lexed to exactly the values of its fields without a diagnostic.",
+                "read; a coordinate line assembled from 21 fields of the column widths is lexed to exactly the values of its fields without a diagnostic. "
+                "The columns every function of the lexer reads are regenerated from the source on every run (T6) and proved equal to the reviewed table "
+                "of the format description's columns (104 fields of 17 record types).",
         "design_ref": "DESIGN.md section 6 C01",
         "note": "Partial: the refinement read_pdb (render recs) = denote recs is checked by correspondence, not proved; DBREF/SEQADV/MODRES/SSBOND are "
                 "covered by the reader-model correspondence only; SEQRES validation is not modelled. Trusted: Coq kernel, T2 table translators, the "
